@@ -153,6 +153,12 @@ func genLife(seed int64, allow map[string]bool) *Scenario {
 	}
 	k := 2 + r.Intn(min(b.sc.N-1, 3))
 	b.seatPlayers(k)
+	if k >= 3 && r.Intn(3) == 0 {
+		b.sc.MinPlayers = 3 // the table minimum counts players with chips, the open-game gate counts seated-in players with chips
+		if len(b.ids) < b.sc.N && r.Intn(2) == 0 {
+			b.add(Op{Op: "reserve", ID: b.newID(), Seat: -1, Chips: 15}) // has chips, never sits in
+		}
+	}
 	b.add(Op{Op: "start"})
 	if r.Intn(12) == 0 {
 		// the blind structure is not set yet when the first hand is due: tableGameOpen sleeps and retries with the
@@ -253,19 +259,22 @@ func genLife(seed int64, allow map[string]bool) *Scenario {
 		if r.Intn(10) == 0 {
 			hp.WithholdFin = 1
 		}
-		if r.Intn(8) == 0 && !ended && len(b.ids) < b.sc.N {
+		if r.Intn(5) == 0 && !ended && len(b.ids) < b.sc.N {
 			// the open trigger arrives while another request holds the engine lock, and a close / release / break lands
 			// while it waits
 			var then []Op
-			switch r.Intn(3) {
+			switch r.Intn(5) {
 			case 0:
 				then = []Op{{Op: "finishall"}, {Op: "sleep", Amt: 20}, {Op: "close"}}
 				ended = true
 			case 1:
 				then = []Op{{Op: "finishall"}, {Op: "sleep", Amt: 20}, {Op: "release"}}
 				ended = true
-			default:
+			case 2:
 				then = []Op{{Op: "finishall"}, {Op: "sleep", Amt: 20}, {Op: "blind", Blind: []int64{-1, 0, 0, 0, 0}}}
+			default:
+				// nothing interferes: the trigger simply has to wait for the lock, and the hand must open afterwards
+				then = []Op{{Op: "finishall"}, {Op: "sleep", Amt: 20}}
 			}
 			hp.Inj = append(hp.Inj, Inj{At: "prefinish", Ops: []Op{{Op: "bgreserve", ID: b.newID(), Seat: -1, Chips: 9, Then: then}}})
 		}
